@@ -199,13 +199,16 @@ def header_sf(hb, size_len, op_len):
         if v is not None and v[0] == "bitop" and v[1] == "BitOr":
             mask = v[3][2] if v[3][0] == "aff" else None
             v = v[2]
-        if v is None or v[0] != "byte" or v[1][0] != "bytes" or v[1][3] != "be":
-            return None, f"header[{i}] is not a big-endian size byte"
+        if v is None or v[0] != "byte" or v[1][0] != "bytes" or v[1][3] not in ("be", "le"):
+            return None, f"header[{i}] is not a byte of the size"
         b = v[1]
-        width = {"u16": 2, "u32": 4}.get(b[2])
-        want_j = (width - size_len) + i
-        if v[2] != want_j:
-            return None, f"header[{i}] holds byte {v[2]} of the {b[2]} size, expected byte {want_j} (big-endian order)"
+        width = {"u16": 2, "u32": 4, "u64": 8, "usize": 8}.get(b[2])
+        if width is None:
+            return None, f"header[{i}] is a byte of a {b[2]} value"
+        # significance of the byte taken (0 = least significant); on the wire the size is big-endian
+        sig = (width - 1 - v[2]) if b[3] == "be" else v[2]
+        if sig != size_len - 1 - i:
+            return None, f"header[{i}] holds byte {v[2]} of the {b[3]}-ordered {b[2]} size (significance {sig}), expected significance {size_len - 1 - i} (big-endian order on the wire)"
         if i == 0 and size_len == 3 and mask != 0x80:
             return None, "first byte of the 3-byte size form is not OR-ed with 0x80"
         if (i != 0 or size_len == 2) and mask is not None:
@@ -238,7 +241,7 @@ def run_frame_writers(ctx, only_encrypted=False):
 
             def violate(self, rule, key, message, file=None, line=None, **kw):
                 kind = key.rsplit("|", 1)[-1]
-                if "encrypted" in key and kind in ("placement", "size-field", "form", "header-len", "no-header", "shape"):
+                if re.search(r"(?<!un)encrypted", key) and kind in ("placement", "size-field", "form", "header-len", "no-header", "shape"):
                     self.inner.violate("cipher.header-form", key, message, file, line, **kw)
 
             def sample(self, s_):
@@ -251,12 +254,24 @@ def run_frame_writers(ctx, only_encrypted=False):
     g = st["g"]
     F = g.f("wow_world_messages")
     n = 0
-    for fn in F.all("fn", lambda p: p.startswith("crate::traits::")):
+    n_over = 0
+    targets = []
+    for fn in F.all("fn"):
         m = WRITER_RE.match(fn["name"])
-        mo = re.match(r"^crate::traits::(vanilla|tbc|wrath)::(Server|Client)Message::", fn["path"])
-        if not m or not mo:
+        if not m:
             continue
-        exp, direction = mo.group(1), m.group(3)
+        mo = re.match(r"^crate::traits::(vanilla|tbc|wrath)::(Server|Client)Message::", fn["path"])
+        if mo:
+            targets.append((fn, mo.group(1), m.group(3), False))
+            continue
+        # writers that a message overrides in its `impl ServerMessage / ClientMessage` (compressed messages)
+        mo = re.match(r"^<(.+) as crate::traits::(vanilla|tbc|wrath)::(Server|Client)Message>::", fn["path"])
+        if mo:
+            targets.append((fn, mo.group(2), m.group(3), True))
+    for fn, exp, direction, over in targets:
+        if over:
+            n_over += 1
+            n -= 1
         op_len = 4 if direction == "client" else 2
         bmax = bmax_for(exp, direction)
         key0 = gpath("wow_world_messages", fn["path"])
@@ -305,9 +320,10 @@ def run_frame_writers(ctx, only_encrypted=False):
         if n <= 2:
             ctx.sample({"writer": fn["path"], "pieces": [(hex(lo), hex(hi), [e[0] for e in (s.events if s else [])]) for lo, hi, s, err in res][:8]})
     if only_encrypted:
-        real_ctx.rule("cipher.header-form", n // 2, floor=18, note="encrypted default writers: the header handed to / built for the cipher carries size field = opcode + body in the right form and byte order for every body length")
+        real_ctx.rule("cipher.header-form", (n + n_over) // 2, floor=18 + 42, note="encrypted default writers and the encrypted writers overridden by compressed messages: the header handed to / built for the cipher carries size field = opcode + body in the right form and byte order for every body length")
         return n
     ctx.rule("frame.writers", n, floor=WRITER_FLOOR, note="default write_* methods evaluated over all body lengths the header can express (piecewise-affine domain)")
+    ctx.rule("frame.override-writers", n_over, floor=84, note="write_* methods overridden by compressed messages (header placeholder patched after the body is known), same evaluation")
     return n
 
 
